@@ -18,10 +18,13 @@
     NOT proved (named runtime behaviour the model does not exhibit): the cost bound and the
     native stack.  Both are refuted on the real code by checks/C03.py (findings D10: nested
     content-model groups cost 2^depth; D08: element nesting >= 20000 overflows a 64 MB stack) and
-    stay findings; the tie of the panic-site inventory (T4) is checked by checks/C03.py. *)
+    stay findings; [depth_unbounded] is the model-level half of D08 (recursion depth = nesting depth,
+    for every depth).  No step-counting semantics is defined, so there is no [cost_refuted] theorem:
+    D10 rests on the measurements of checks/C03.py.  The tie of the panic-site inventory (T4) is
+    [panic_sites_classified]. *)
 From Coq Require Import List NArith.
 From XmlRs Require Import Base.CPred Model.Peg Gen.GrammarXmlGen Model.ParseActions Model.Info Model.Display
-     Model.PanicSites Proofs.GrammarTermination Proofs.PipelineTotal Proofs.Expansion.
+     Model.PanicSites Proofs.GrammarTermination Proofs.PipelineTotal Proofs.Expansion Proofs.DisplayElem Proofs.DisplayRun.
 Import ListNotations.
 
 Theorem parser_terminates : forall s, run G_xml G_xml_R nt_document s <> Oof.
@@ -69,6 +72,15 @@ Example wf_table_nontrivial :
             Entity [102] (Some [XvText [121]]) None None None].
 Proof. exact wf_table_example. Qed.
 
+(** D08 at the level of the model: the recursion depth of the pipeline is not bounded by anything
+    but the input -- for every n the parser accepts a document whose infoset (built by the
+    recursive XmlElement::node, printed by the recursive Display) nests n deep.  The native stack
+    the Rust recursion needs is outside the model; checks/C03.py observes the abort on the real
+    code (finding D08). *)
+Theorem depth_unbounded : forall n, exists s e i,
+  parse_element s = POk (e, []) /\ build_element [] false e = IOk i /\ (n <= item_depth i)%nat.
+Proof. exact depth_unbounded_proof. Qed.
+
 (** T4: the inventory of panic sites regenerated from the sources is the hand-classified one *)
 Theorem panic_sites_classified : sites_match = true.
 Proof. vm_compute. reflexivity. Qed.
@@ -78,3 +90,4 @@ Print Assumptions pipeline_no_panic.
 Print Assumptions expansion_terminates.
 Print Assumptions expansion_terminates_pinned.
 Print Assumptions expansion_diverges_pinned.
+Print Assumptions depth_unbounded.
